@@ -149,6 +149,9 @@ func genFsOps(r *Rand, n int, extra []string, plainSpelling bool, gm *ModelTree)
 				for k := r.Intn(4); k > 0; k-- {
 					op.Chunks = append(op.Chunks, r.Pick(0, 1, 2, 5, 100))
 				}
+				if op.Big >= 70000 && r.Chance(1, 2) {
+					op.Chunks = append([]int{65536}, op.Chunks...) // a first chunk of 64 KiB
+				}
 			}
 		case "Reader":
 			for k := r.Intn(3); k > 0; k-- {
